@@ -2,6 +2,8 @@ import PgVerif.Model.LR
 import PgVerif.Model.Forest
 import PgVerif.Spec.SPPF
 import PgVerif.Model.Pos
+import PgVerif.Spec.Viable
+import PgVerif.Model.LineCol
 /-!
 `pgmodel`: line-protocol driver. One request per line (a command word followed
 by natural numbers), one reply line per request. Context commands (`grammar`,
@@ -215,6 +217,26 @@ def handle (st : St) (cmd : String) (args : List Nat) : St × String :=
        | some (t, _) => (st, if t.posOKModLayout inp then "posokr 1" else "posokr 0")
        | none => (st, "bad-tree"))
     | none => (st, "bad-posokr")
+  | "viable" =>
+    match st.inp, args with
+    | some inp, [fuel] =>
+      (st, match viableEnds st.g inp fuel with
+        | some l => "viable " ++ natList l
+        | none => "viable fuel")
+    | _, _ => (st, "bad-viable")
+  | "nextterms" =>
+    -- nextterms <fuel> <rawEnd> <terminals...>
+    match st.inp, args with
+    | some inp, fuel :: r :: terms =>
+      (st, match nextTerminals st.g inp fuel r terms with
+        | some l => "nextterms " ++ natList l
+        | none => "nextterms fuel")
+    | _, _ => (st, "bad-nextterms")
+  | "linecol" =>
+    -- linecol <pos> <code points...>
+    match args with
+    | pos :: text => let r := posToLineCol text pos; (st, s!"linecol {r.1} {r.2}")
+    | _ => (st, "bad-linecol")
   | "fwf" => (st, if st.F.wf then "fwf 1" else "fwf 0")
   | "sols" =>
     match args with
